@@ -362,7 +362,10 @@ func ValidateRequestBody(ctx context.Context, input *RequestValidationInput, req
 		}
 	}
 
-	if defaultsSet {
+	// The body is written back with its defaults when the media type has an encoder
+	// (RegisterBodyEncoder); a body that can be decoded but not encoded again, such as
+	// a form, is valid all the same and is forwarded as it was received.
+	if defaultsSet && RegisteredBodyEncoder(mediaType) != nil {
 		var err error
 		if data, err = encodeBody(value, mediaType); err != nil {
 			return &RequestError{
